@@ -71,6 +71,16 @@ PROPS = {
              "EIRP: all 256 index bytes, +-3 ulp around every table entry, random float32 bit patterns, infinities, NaN, denormals",
              trusted=["gps hook VerifLeapTable", "time.Time arithmetic modelled as integer nanoseconds (no saturation inside 1678..2262)", "IEEE-754 binary64 division modelled exactly on integers (LW.fdivCeil), validated against Go on every payload-symbol op"],
              exhaustive_parts=["payload-symbol count: payload 0..255 x SF 5..12 x CR 1..4 x header x LDRO", "all 256 EIRP index bytes", "thorough: full airtime product"]),
+    "C17": P("Frequency: every Hz value 0..2999 (300000 in thorough), the 12.5 kHz raster 100 MHz..3 GHz, +-3 around every power of two and ten, random uint32 and +-2^52 values; Percentage: -200..300 exhaustively + random int32; "
+             "JSON number texts (fixed boundary list: ties, subnormals, overflow, malformed; generated decimals with exponents, 1 in 5 mutated); HEX texts (upper/lower, 0x, odd length, bad characters); "
+             "instants over years 0..9999 with whole-minute zone offsets -12h..+14h (year / leap-day / century boundaries forced), RFC 3339 texts incl. fractions, 24:00 offsets and character-level mutations; "
+             "key envelopes with 16/24/32-byte and invalid KEKs: wrap, unwrap, wrong KEK, single-bit corruption, truncation, extension, all lengths 0..56 incl. the bare RFC 3394 IV; 23 payload struct types x random in-domain values (implementation-only round trip)",
+             trusted=["strconv: shortest float printing and correctly rounded parsing (json.Marshal(float64) then ParseFloat is the identity) - the JSON text between the two conversions is not modelled",
+                      "crypto/aes modelled by an arbitrary lawful block cipher in the theorems; executable AES-128/192/256 compared on every key-envelope op; RFC 3394 section 4 vectors in the corpus",
+                      "time.Time / time.Parse(RFC3339) modelled by hand (LW.Backend.formatRFC3339 / parseRFC3339, proleptic Gregorian civil-date algorithms), validated by correspondence only - no theorem yet",
+                      "encoding/json object encoding (omitempty, embedded structs, pointers) is not modelled: the payload structs are round-tripped by the implementation only and compared field by field (a test, not a proof)",
+                      "LW/Proofs/Float.lean uses Mathlib tactics (nlinarith, linarith, ring); its theorems depend on propext, Classical.choice, Quot.sound only"],
+             exhaustive_parts=["Percentage 0..100 (theorem: 0..1000 by kernel evaluation)", "key-envelope input lengths 0..56"]),
     "C18": P("for every (package, direction, CID) of the four regenerated registries: in-width values of the payload type (3 in 4; boundary values forced 1 in 4) and full-Go-domain values (1 in 4), each encoded (Size + MarshalBinary) and sent through Commands encode->decode; "
              "EXHAUSTIVE for the 11 single-byte payload types (all in-width values, all 256 wire bytes); raw Command decodes at every length 0..Size+7; commands without payload and unknown CIDs 0..11 in both directions; payloads under a foreign CID; "
              "sequences of 2..6 commands per package and direction (rest-consuming / exact-length payloads mostly last, 1 in 6 in the middle; 1 in 12 out-of-width); raw command streams; random and NIST-vector keys x multicast addresses",
@@ -150,6 +160,14 @@ MANIFEST_TEXT = {
              "C20_ceil_exact (exact binary64 model, kernel-evaluated over the whole domain), C20_airtime_formula / _total / _mono, C20_eirp_table + C20_eirp (largest entry not exceeding x, for every float32). Go results are also judged against the spec formulas.",
         note="Trusted: Lean kernel; hooks + dump; the IERS date list and Semtech formula as transcribed; integer model of time.Time; the exact-float model. One genuine defect repaired (leap boundary one second early). sensitivity.go carries no clause and is not modelled.",
         technique="Lean 4 proof (induction over the leap table, kernel evaluation of an exact float model, monotonicity) + differential correspondence"),
+    "C17": dict(
+        text="Lean theorems: C17_frequency_roundtrip (EVERY integer 0 <= f < 2^32 Hz survives float64 division by 10^6, exact print/parse, multiplication by 10^6 and math.Round - error analysis over an exact integer model of binary64), "
+             "C17_percentage_roundtrip (0..1000, kernel evaluation), C17_hex_roundtrip (all byte strings, with/without 0x), C17_envelope_roundtrip (all keys, all 16/24/32-byte KEKs, any lawful block cipher), "
+             "C17_wrap_is_rfc3394 / C17_unwrap_iff_integrity (the code's key wrap = RFC 3394 as stated in the RFC; success iff the integrity check passes), C17_unwrap_rejects_other_lengths, C17_clear_without_label. "
+             "Differential runs tie the model (floats bit-exact, RFC 3339 text, envelopes) to the Go code; every Go result is judged against the property.",
+        note="PARTIAL: the ISO8601Time round trip and the JSON composition of the 23 payload structs are checked by differential / implementation-only runs and run-time verdicts, not by theorems. "
+             "Two genuine defects repaired (decoder truncation; Unwrap panics / silent truncation for AESKey lengths other than 24). Zone offsets with seconds cannot be expressed in RFC 3339 and are outside the quantifier.",
+        technique="Lean 4 proof (exact binary64 error analysis, kernel evaluation, induction over the RFC 3394 rounds) + differential correspondence"),
     "C18": dict(
         text="Lean theorems over the model of all four packages (33 payload types): C18_payload_roundtrip (every in-width value encodes without error to exactly Size() bytes and decodes to itself, also with trailing bytes), "
              "C18_command_roundtrip (registry lookup included), C18_sequence_roundtrip (any sequence, any length, clocksync / multicastsetup / fragmentation), C18_sequence_roundtrip_partial + C18_sequence_exact_length_counterexample (firmwaremanagement), "
